@@ -183,12 +183,16 @@ class ConfigIndependence(Contract):
         base = dict(debug=False, parallel=False, rnd=False, logics=None, optimizer="incremental", obj=False, rich=True)
         for change in (dict(parallel=True), dict(rnd=True), dict(debug=True), dict(logics="QF_LIA"), dict(logics="QF_UFLIA"), dict(optimizer="optimize", obj=True), dict(parallel=True, logics="QF_LIA", obj=True)):
             out.append(dict(base, **change))
+        # user-chosen names live in the user's namespace: a constraint may be called like an unknown of the model (here
+        # the flag of the optional task t2) without the diagnosis mode changing what is asserted
+        for optimizer in ("incremental", "optimize"):
+            out.append(dict(debug=True, parallel=False, rnd=False, logics=None, optimizer=optimizer, obj=False, named="t2_scheduled"))
         return out
 
     def scenario(self, ps, P, case):
         pb, t1, t2 = small_problem(ps, P)
         ps.TaskPrecedence(task_before=t1, task_after=t2, offset=P.int("off") if False else 0)
-        ps.TaskStartAfter(task=t1, value=P.int("v"))
+        ps.TaskStartAfter(task=t1, value=P.int("v"), **({"name": case["named"]} if case.get("named") else {}))
         if case.get("rich"):
             w = pb.workers["w"]
             t3 = ps.FixedDurationTask(name="t3", duration=2, optional=True)
@@ -247,7 +251,7 @@ class ConfigIndependence(Contract):
             out.append(Clause("frame[every global z3 option is (re)set by the constructor on this path]", z3.BoolVal(keys == ALL_OPTIONS), props=("C14", "C15"), kind="frame", note=str(sorted(ALL_OPTIONS - keys))))
             if case["debug"]:
                 tracked = G.tracked()
-                out.append(Clause("debug[every formula is tracked under a name of its own]", z3.BoolVal(len(tracked) == len(A_cfg) and len({n for _, n in tracked}) == len(tracked)), props=("C19", "C15"), kind="state"))
+                out.append(Clause("debug[every formula is tracked under a name of its own]", z3.BoolVal(len(tracked) == len(G.raw_stack()) and len({n for _, n in tracked}) == len(tracked)), props=("C19", "C15"), kind="state"))
         return out
 
 
@@ -384,11 +388,20 @@ class DebugCore(Contract):
         owner = {}
         basic_ids = set()
         ok, why = True, ""
+
+        def parts(f):
+            # a tracked formula may be one assertion of a constraint or the conjunction of several of them
+            return {x.get_id() for x in f.children()} if z3.is_and(f) and f.num_args() > 0 else {f.get_id()}
+
+        def holds(c, f):
+            mine = {x.get_id() for x in assertions_of(c)}
+            return f.get_id() in mine or parts(f) <= mine
+
         for f, name in G.tracked():
-            cands = [c for c in top if f.get_id() in {x.get_id() for x in assertions_of(c)}]
+            cands = [c for c in top if holds(c, f)]
             if cands:
                 owner[name] = cands[0]
-            elif any(f.get_id() in {x.get_id() for x in assertions_of(c)} for c in inner):
+            elif any(holds(c, f) for c in inner):
                 ok, why = False, f"tracked formula {f} belongs to a constraint that is only an operand of a combination"
             else:
                 owner[name] = None
@@ -402,13 +415,20 @@ class DebugCore(Contract):
                 for x in a:
                     if hasattr(x, "_created_from_assertion"):
                         listed.append(x)
-            want = [owner[n] for n in names if owner.get(n) is not None]
-            out.append(Clause("post[the listed constraints are the owners of the core's assertions, all constraints of the problem]", z3.BoolVal([id(x) for x in listed] == [id(x) for x in want] and all(any(x is c for c in pb.constraints.values()) for x in listed)), props=("C19",), kind="sound", bounded=self.bounded))
+            want = []
+            for n in names:  # each owner once, in the order of the core
+                if owner.get(n) is not None and not any(owner[n] is w for w in want):
+                    want.append(owner[n])
+            shown = []
+            for x in listed:
+                if not any(x is y for y in shown):
+                    shown.append(x)
+            out.append(Clause("post[the listed constraints are the owners of the core's assertions, all constraints of the problem]", z3.BoolVal([id(x) for x in shown] == [id(x) for x in want] and all(any(x is c for c in pb.constraints.values()) for x in listed)), props=("C19",), kind="sound", bounded=self.bounded))
             # the listed constraints + basic rules contain every formula of the core, hence (solver contract:
             # the core is jointly unsatisfiable) admit no schedule
             by = {n: f for f, n in G.tracked()}
             listed_formulas = {x.get_id() for c in listed for x in assertions_of(c)}
-            covered = all((by[n].get_id() in listed_formulas) or (by[n].get_id() in basic_ids) for n in names)
+            covered = all((by[n].get_id() in listed_formulas) or parts(by[n]) <= listed_formulas or (by[n].get_id() in basic_ids) for n in names)
             out.append(Clause("post[listed constraints and basic rules cover the unsat core]", z3.BoolVal(covered), props=("C19",), kind="sound", bounded=self.bounded))
         elif is_solution(ctx["res"]):
             m = G.models[-1]
@@ -920,3 +940,66 @@ def _callseq_native_search(case, params, ob):
 
 
 CallSequences.native_search = staticmethod(_callseq_native_search)
+
+
+# ------------------------------------------------------------------------------ C12 / C13 after an optimisation (bounded, native)
+@register
+class EnumerateAfterOptimisation(Contract):
+    """bounded native layer of C12 / C13: after a solve() *with an objective* (both optimisers), asking for another
+    solution returns valid schedules, each different from all the earlier ones, and fails only when none is left; a
+    user assertion added afterwards is honoured.  (Under the engine the optimisation loop is covered by its loop
+    contract and the enumeration by problems without objective; this runs the real calls in sequence.)"""
+
+    target = "solver.SchedulingSolver.find_another_solution"
+    props = ("C12", "C13")
+    native_only = True
+    bounded = "native grid: 2 tasks on one worker, horizon 4..5, objectives makespan / start latest, both optimisers, with and without an optional task"
+
+    def cases(self, tier):
+        return [dict(obj=o, optimizer=z, optional=p, horizon=h) for o in ("makespan", "start_latest") for z in ("incremental", "optimize") for p in (False, True) for h in (4, 5)]
+
+    def scenario(self, ps, P, case):
+        import contextlib
+        import io
+
+        with contextlib.redirect_stdout(io.StringIO()):
+            pb = ps.SchedulingProblem(name="pb", horizon=case["horizon"])
+            w = ps.Worker(name="w")
+            t1 = ps.FixedDurationTask(name="t1", duration=2)
+            t2 = ps.FixedDurationTask(name="t2", duration=1, optional=case["optional"])
+            t1.add_required_resource(w)
+            t2.add_required_resource(w)
+            (ps.ObjectiveMinimizeMakespan if case["obj"] == "makespan" else ps.ObjectiveTasksStartLatest)()
+            solver = ps.SchedulingSolver(problem=pb, optimizer=case["optimizer"])
+            seen, ok_valid = [], True
+            sol = solver.solve()
+            first = bool(sol)
+            while sol and len(seen) < 60:
+                sig = tuple((n, ts.start, ts.end, ts.scheduled) for n, ts in sol.tasks.items())
+                seen.append(sig)
+                a, b = sol.tasks["t1"], sol.tasks["t2"]
+                ok_valid = ok_valid and a.scheduled and a.end - a.start == 2 and 0 <= a.start and a.end <= case["horizon"]
+                if b.scheduled:
+                    ok_valid = ok_valid and b.end - b.start == 1 and 0 <= b.start and b.end <= case["horizon"] and (a.end <= b.start or b.end <= a.start)
+                else:
+                    ok_valid = ok_valid and case["optional"]
+                sol = solver.find_another_solution()
+        # brute force: every valid timing of the two tasks
+        H = case["horizon"]
+        alls = set()
+        for s1 in range(0, H - 1):
+            for s2 in range(0, H):
+                if s1 + 2 <= s2 or s2 + 1 <= s1:
+                    alls.add((s1, s2))
+            if case["optional"]:
+                alls.add((s1, None))
+        return dict(first=first, seen=seen, ok_valid=ok_valid, total=len(alls))
+
+    def clauses(self, P, ctx, case):
+        seen = ctx["seen"]
+        return [
+            Clause("native[the optimisation finds a schedule of this feasible problem]", z3.BoolVal(ctx["first"]), props=("C13",), kind="sound", bounded=self.bounded),
+            Clause("native[every schedule returned after the optimisation is valid]", z3.BoolVal(bool(ctx["ok_valid"])), props=("C12", "C13"), kind="sound", bounded=self.bounded),
+            Clause("native[the schedules returned are pairwise different]", z3.BoolVal(len(set(seen)) == len(seen)), props=("C12",), kind="sound", bounded=self.bounded),
+            Clause("native[asking for another solution fails only when none is left]", z3.BoolVal(len(set(seen)) == ctx["total"]), props=("C12", "C13"), kind="sound", bounded=self.bounded, note=f"{len(set(seen))} enumerated, {ctx['total']} valid timings"),
+        ]
